@@ -1,5 +1,6 @@
 import Sebuf.Lemmas.Order
 import Sebuf.Gen.MapRanges
+import Sebuf.Lemmas.OaParams
 /-!
 # C15 — generation is a pure, order-independent function of the definitions
 
@@ -50,5 +51,40 @@ theorem unsorted_would_depend : ∃ s m iter₁ iter₂, (∀ l, (iter₁ l).Per
 
 /-- non-vacuity: a non-identity permutation satisfies the hypothesis. -/
 example : ∀ l : List Str, (List.reverse l).Perm l := fun l => List.reverse_perm l
+
+/-! ### parameter spelling (openapiv3 parses its own parameter string) -/
+
+/-- the shape of `parseParameters` the model `OaParams.parseParameters` transcribes: pairs cut at
+`,`, each at its first `=`, key and value stored through `strings.TrimSpace` (regenerated from
+`cmd/protoc-gen-openapiv3/main.go`). -/
+theorem param_parsing_transcribed :
+    Gen.OpenApiMain.pairSplit = "strings.Split(parameter, \",\")" ∧
+    Gen.OpenApiMain.kvSplit = "strings.SplitN(pair, \"=\", splitLimit)" ∧ Gen.OpenApiMain.kvLimit = 2 ∧
+    Gen.OpenApiMain.storeKey = "strings.TrimSpace(kv[0])" ∧ Gen.OpenApiMain.storeValue = "strings.TrimSpace(kv[1])" := by decide
+
+/-- **the spelling of the `format` pair does not matter**: for ANY white space before the key,
+between key and `=`, between `=` and the value and after the value, and any value that is a word
+without `,` (so: every value of the format table and every unknown one), the plugin selects the
+format `format=<value>` selects — the output is the same function of the definitions. -/
+theorem format_spelling_independent (a b c d v : Str) (ha : OaParams.Spaces a) (hb : OaParams.Spaces b)
+    (hc : OaParams.Spaces c) (hd : OaParams.Spaces d) (hv : OaParams.Word v) (hvc : ∀ x ∈ v, x ≠ ',') :
+    OaParams.formatOfParam (some (a ++ "format".toList ++ b ++ '=' :: (c ++ v ++ d))) =
+      OaParams.formatOfParam (some ("format=".toList ++ v)) := by
+  rw [OaParams.format_spelling a b c d v ha hb hc hd hv hvc]
+  have := OaParams.format_spelling [] [] [] [] v (by intro _ h; cases h) (by intro _ h; cases h)
+    (by intro _ h; cases h) (by intro _ h; cases h) hv hvc
+  simp only [List.nil_append, List.append_nil] at this
+  rw [← this]; rfl
+
+/-- non-vacuity and the other spellings the correspondence draws (another parameter before / after the
+pair, tabs, an empty parameter, `yml`). -/
+example :
+    OaParams.formatOfParam (some " format = json ".toList) = "FormatJSON" ∧
+    OaParams.formatOfParam (some "paths=source_relative, format = json".toList) = "FormatJSON" ∧
+    OaParams.formatOfParam (some "format=json ,paths=source_relative".toList) = "FormatJSON" ∧
+    OaParams.formatOfParam (some "\tformat\t=\tjson".toList) = "FormatJSON" ∧
+    OaParams.formatOfParam (some "format = yml".toList) = "FormatYAML" ∧
+    OaParams.formatOfParam (some "".toList) = "FormatYAML" ∧ OaParams.formatOfParam none = "FormatYAML" ∧
+    OaParams.formatOfParam (some "format=yaml,format=json".toList) = "FormatJSON" := by decide
 
 end Sebuf.C15
